@@ -1,0 +1,25 @@
+//go:build verif
+
+// Contracts for package maxp, checked by /verif/engine (gvc).  This file
+// contains comments only; it is compiled only with the "verif" build tag.
+package maxp
+
+// "maxp" table (OpenType): version 0.5 is 6 bytes (version, numGlyphs),
+// version 1.0 adds 13 uint16 maxima.
+//@ func Read(r io.Reader) (info *Info, err error)   props: C12 C02 C18 C01
+//@   requires r != nil
+//@   let b = old(rpos(r)); d = file(r)
+//@   ensures faults(r) > old(faults(r)) ==> err != nil
+//@   ensures err == nil ==> info != nil && fresh(info) && info.NumGlyphs == be16(d, b + 4) && info.NumGlyphs >= 1
+//@   ensures err == nil ==> (be32(d, b) == 20480 || be32(d, b) == 65536) && (info.TTF == nil) == (be32(d, b) == 20480)
+//@   ensures err == nil && info.TTF != nil ==> info.TTF.MaxPoints == be16(d, b + 6) && info.TTF.MaxContours == be16(d, b + 8) && info.TTF.MaxCompositePoints == be16(d, b + 10) && info.TTF.MaxCompositeContours == be16(d, b + 12) && info.TTF.MaxZones == be16(d, b + 14) && info.TTF.MaxTwilightPoints == be16(d, b + 16) && info.TTF.MaxStorage == be16(d, b + 18)
+//@   ensures err == nil && info.TTF != nil ==> info.TTF.MaxFunctionDefs == be16(d, b + 20) && info.TTF.MaxInstructionDefs == be16(d, b + 22) && info.TTF.MaxStackElements == be16(d, b + 24) && info.TTF.MaxSizeOfInstructions == be16(d, b + 26) && info.TTF.MaxComponentElements == be16(d, b + 28) && info.TTF.MaxComponentDepth == be16(d, b + 30)
+//@   modifies rpos(r), faults(r)
+
+//@ func (info *Info) Encode() (res []byte)   props: C12 C01 C16
+//@   requires info != nil
+//@   panics_if info.NumGlyphs < 1 || info.NumGlyphs >= 65536
+//@   ensures fresh(res) && len(res) == ite(info.TTF == nil, 6, 32) && be32(res, 0) == ite(info.TTF == nil, 20480, 65536) && be16(res, 4) == info.NumGlyphs
+//@   ensures info.TTF != nil ==> be16(res, 6) == info.TTF.MaxPoints && be16(res, 8) == info.TTF.MaxContours && be16(res, 10) == info.TTF.MaxCompositePoints && be16(res, 12) == info.TTF.MaxCompositeContours && be16(res, 14) == info.TTF.MaxZones && be16(res, 16) == info.TTF.MaxTwilightPoints && be16(res, 18) == info.TTF.MaxStorage
+//@   ensures info.TTF != nil ==> be16(res, 20) == info.TTF.MaxFunctionDefs && be16(res, 22) == info.TTF.MaxInstructionDefs && be16(res, 24) == info.TTF.MaxStackElements && be16(res, 26) == info.TTF.MaxSizeOfInstructions && be16(res, 28) == info.TTF.MaxComponentElements && be16(res, 30) == info.TTF.MaxComponentDepth
+//@   modifies nothing
